@@ -23,15 +23,24 @@ ASSUME_COMMON = [
 ]
 
 
+CUR_TIER = "quick"  # set by run_check.py before a plan is built
+
+
+def _limits():
+    # wall-clock limits only bound runaway processes (their firing is "inconclusive"); thorough runs are much longer
+    return (120, 400) if CUR_TIER == "quick" else (1500, 2400)
+
+
 def S(seed, k):
     """derive a per-run seed"""
     return (seed * 1000003 + k * 7919 + 1) & 0x7FFFFFFF
 
 
 def ds(variant, sub, seed, k, threads, mode="jitter", cpu=None, timeout=400, **kw):
-    args = dict(sub=sub, seed=S(seed, k), threads=threads, mode=mode)
+    wd, to = _limits()
+    args = dict(sub=sub, seed=S(seed, k), threads=threads, mode=mode, watchdog_s=wd)
     args.update(kw)
-    return Run(variant, BINARIES["h_ds"], args, cpu=cpu or min(threads, 8), timeout=timeout, tag=sub)
+    return Run(variant, BINARIES["h_ds"], args, cpu=cpu or min(threads, 8), timeout=max(timeout, to), tag=sub)
 
 
 def c02(tier, seed):
@@ -184,9 +193,10 @@ def c17(tier, seed):
 def fb(binary, variant, sub, seed, k, threads, mode="jitter", timeout=400, **kw):
     # 10^8 context switches without a single completed client operation = livelock (logical steps, not time; 8*10^6 was
     # reached by yield-polling fibers while a stalled kernel thread was descheduled on the oversubscribed machine)
-    args = dict(sub=sub, seed=S(seed, k), threads=threads, mode=mode, livelock_hits=100000000)
+    wd, to = _limits()
+    args = dict(sub=sub, seed=S(seed, k), threads=threads, mode=mode, livelock_hits=100000000, watchdog_s=wd)
     args.update(kw)
-    return Run(variant, BINARIES[binary], args, cpu=min(threads, 8), timeout=timeout, tag=sub)
+    return Run(variant, BINARIES[binary], args, cpu=min(threads, 8), timeout=max(timeout, to), tag=sub)
 
 
 RT_STALLS = ["WAIT_MPSC_PRE_PUSH", "MPSC_MID", "SWITCH_PRE", "SWITCH_POST", "SCHEDULED", "MAINT_PUBLISH"]
